@@ -354,8 +354,8 @@ class Model:
                 for h in self.fns(f.file):
                     if h.body is None or h.name in seen or h.name not in names or h.test:
                         continue
-                    if h.impl not in (None, f.impl):
-                        continue
+                    if h.impl not in (None, f.impl) and sum(1 for x in self.fns(f.file) if x.name == h.name) != 1:
+                        continue  # a method of another type is followed only when its name is unique in the file
                     if any(callee_name(c) == f.name for c in walk(h.body) if c["k"] in ("Call", "MethodCall")):
                         continue
                     seen.add(h.name)
